@@ -1,4 +1,4 @@
 SPECIFICATION TraceSpec
-INVARIANT I11
+INVARIANT J11
 POSTCONDITION TraceAccepted
 CHECK_DEADLOCK FALSE
